@@ -219,28 +219,38 @@ def derive_seed(seed, *parts):
     return int.from_bytes(h, "big")
 
 
-MAX_SIGNATURES = 4
+MAX_SIGNATURES = {"quick": 2, "thorough": 4}
+SHRINK_CALLS = {"quick": 250, "thorough": 4000}
 
 
 def run_given(col, strategy, fn, n, seed, tier, sub, shrink=True):
     """fn(case) -> (nontrivial: bool, classes: iterable) or raises Violation.
-    Known/suppressed violations do not stop the search."""
+    Known/suppressed violations do not stop the search.  Shrinking is bounded by a call budget:
+    once it is used up every candidate other than the best failing case found so far passes
+    immediately, so the shrinker terminates and Hypothesis replays that best case last."""
     import hypothesis
     from hypothesis import given
 
-    for attempt in range(MAX_SIGNATURES):
+    for attempt in range(MAX_SIGNATURES[tier]):
         col.last_failure = None
+        state = {"calls_after_failure": 0, "failing": set()}
 
         @hypothesis.seed(derive_seed(seed, sub, attempt))
         @_hyp_settings(n, tier, shrink)
         @given(strategy)
         def test(case):
+            if col.last_failure is not None:
+                state["calls_after_failure"] += 1
+                if state["calls_after_failure"] > SHRINK_CALLS[tier]:
+                    if case_hash(case) not in state["failing"]:
+                        return
             try:
                 res = fn(case)
             except Violation as v:
-                if col.handle(v, case if v.case is None else v.case):
+                if col.handle(v, case):
                     col.record(case, False, ("after-known-finding",), sub)
                     return
+                state["failing"].add(case_hash(case))
                 raise
             nontrivial, classes = res if res is not None else (False, ())
             col.record(case, nontrivial, classes, sub)
@@ -267,9 +277,10 @@ def run_machine(col, machine_cls, n, steps, seed, tier, sub, shrink=True):
     import hypothesis
     from hypothesis.stateful import run_state_machine_as_test
 
-    for attempt in range(MAX_SIGNATURES):
+    for attempt in range(MAX_SIGNATURES[tier]):
         col.last_failure = None
-        cls = type(machine_cls.__name__, (machine_cls,), {"col": col, "sub": sub})
+        cls = type(machine_cls.__name__, (machine_cls,), {"col": col, "sub": sub, "tier": tier,
+                                                        "calls_after_failure": [0]})
         cls = hypothesis.seed(derive_seed(seed, sub, attempt))(cls)
         try:
             run_state_machine_as_test(cls, settings=_hyp_settings(n, tier, shrink, steps))
